@@ -1,10 +1,102 @@
-"""C08 — merging conserves entries: nothing lost, duplicated or invented."""
+"""C08 — merging conserves entries: nothing lost, duplicated or invented.
+
+Second part (phase 3): what MergeFilesWith does with the ValidateOpts stored on the input files
+and batches — model coq/Model/MergeOpts.v, theorems coq/Props/C08Opts.v, table
+coq/Gen/MergeOptsGen.v (translator/mergeopts.go), harness command c08opts, extraction
+coq/Extract/C08OPTS.v + ocaml/c08opts/driver.ml.  See docs/C08.md."""
+import json
+import os
+
+import common as C
 import merge_common as M
+
+OPTS_TRUSTED = [
+    "option table of the translator (syntactic: fields of ValidateOpts, shape of ValidateOpts.merge, the statements of merge.go that touch option values, printed source of the trace-number code of Batch.build/verify)",
+    "harness c08opts: options observed by reflection over ach.ValidateOpts and through the verif hook VerifBatchValidation; CheckTransactionCode identity by function pointer",
+]
+OPTS_ASSUMPTIONS = [
+    "options: pointer identity of *ValidateOpts values is not modelled (values only); the options stored on batch headers, entries and addenda are outside the model (the oracle observes them through Create/Validate of the real outputs)",
+    "options: trace numbers and ODFI identifications are ASCII (byte slicing of TraceNumberField()[:8]); inputs do not share *EntryDetail pointers when Batch.build renumbers (the mutation of a shared entry is not modelled)",
+    "NewMerger(opts).MergeWith stores opts on every input file before MergeFilesWith: covered as inputs that all carry the same option value",
+]
+
+
+def opts_correspondence(ctx, n):
+    d = os.path.join(ctx.rundir, "corr-opts")
+    os.makedirs(d, exist_ok=True)
+    ok, out = C.build_ocaml("c08opts")
+    ctx.log("ocaml c08opts", out[-3000:])
+    if not ok:
+        ctx.diag.append("extracted option model does not build: " + out[-600:])
+        return
+    rc, out = C.sh([os.path.join(C.BIN, "c08opts"), "corr", "-out", d, "-n", str(n)], timeout=3000)
+    ctx.log("corr-opts", out[-1500:])
+    drv = os.path.join(C.BUILD, "ocaml", "c08opts", "driver")
+    if rc != 0 or not os.path.exists(drv):
+        ctx.diag.append("option correspondence could not run: " + out[-300:])
+        return
+    rc2, out2 = C.sh("%s %s > %s" % (drv, os.path.join(d, "cases.txt"), os.path.join(d, "model.txt")), timeout=3000)
+    if rc2 != 0:
+        ctx.diag.append("extracted option model crashed: " + out2[-300:])
+    ctx.compare("MergeFilesWith with ValidateOpts", os.path.join(d, "model.txt"), os.path.join(d, "impl.txt"), os.path.join(d, "cases.jsonl"))
+    try:
+        info = json.loads(out.strip().splitlines()[-1])
+        ctx.cov.setdefault("distribution", {})["correspondence with ValidateOpts"] = info.get("distribution", {})
+        if info.get("skipped", 0) * 10 > info.get("cases", 0):
+            ctx.diag.append("option correspondence: %d of %d generated cases could not be built" % (info["skipped"], info["skipped"] + info["cases"]))
+    except (ValueError, IndexError):
+        pass
+
+
+def opts_oracle(ctx, n, sub="oracle-opts"):
+    d = os.path.join(ctx.rundir, sub)
+    os.makedirs(d, exist_ok=True)
+    rc, out = C.sh([os.path.join(C.BIN, "c08opts"), "oracle", "-out", d, "-n", str(n),
+                    "-corpus", os.path.join(C.VERIF, "corpus", "C08", "opts")], timeout=6000)
+    ctx.log(sub, out[-2000:])
+    if rc != 0:
+        ctx.diag.append("option oracle crashed rc=%d: %s" % (rc, out[-300:]))
+    before = len(ctx.fails)
+    summ = ctx.read_jsonl(os.path.join(d, "oracle.jsonl"))
+    for f in ctx.fails[before:]:
+        f["input"] = f.get("case")
+    return summ
 
 
 def run(ctx):
-    M.run(ctx, "C08", ["Props/C08.v"], ["Oblig/C08Obl.v"])
+    M.run(ctx, "C08", ["Props/C08.v", "Props/C08Opts.v"], ["Oblig/C08Obl.v", "Oblig/C08OptsObl.v"])
+    if not os.path.exists(os.path.join(C.BIN, "c08opts")):
+        return  # the harness did not build; M.run has recorded why
+    base_search = ctx.search
+
+    def search(c, factor):
+        found = list(base_search(c, factor) or [])
+        before = len(c.fails)
+        opts_oracle(c, c.scale(1500, 8000) * factor, "search-opts")
+        found += c.fails[before:]
+        del c.fails[before:]
+        return found
+
+    ctx.search = search
+    ctx.trusted += OPTS_TRUSTED
+    ctx.assumptions[:] = [a for a in ctx.assumptions if not a.startswith("inputs are valid non-IAT, non-ADV files carrying no ValidateOpts")]
+    ctx.assumptions += ["inputs are valid non-IAT, non-ADV files (valid under the ValidateOpts stored on them)"] + OPTS_ASSUMPTIONS
+    opts_correspondence(ctx, ctx.scale(2000, 20000))
+    summ = opts_oracle(ctx, ctx.scale(1500, 15000))
+    ctx.add_summary(summ, "MergeFilesWith with ValidateOpts (C08 options)")
 
 
 def replay(path):
+    try:
+        inp = json.load(open(path)).get("input") or {}
+    except (OSError, ValueError):
+        inp = {}
+    if isinstance(inp, dict) and inp.get("kind") == "opts":
+        ok, out = C.build_harness()
+        if not ok:
+            print(out[-2000:])
+            return 1
+        rc, out = C.sh([os.path.join(C.BIN, "c08opts"), "replay", path], timeout=600)
+        print(out)
+        return 1 if rc != 0 else 0
     return M.replay("C08", path)
